@@ -1,10 +1,12 @@
 ------------------------------ MODULE MC_Smoothing -----------------------------
 EXTENDS Smoothing, TLC
-CONSTANTS Depth
+CONSTANTS Depth, Wide
 VARIABLE d
 mvars == <<svars, d>>
-Readings == {0, 1, 40, 95}
-Init == \E k \in {"hwmon", "file", "cmd"}, w \in 1..4, a0 \in {0, 50} : SInit(k, w, a0) /\ d = 0
+\* (exact rationals: denominators w^Depth; Depth 6 with w <= 4 keeps every product below 2^31 - the thorough tier widens
+\*  the value sets instead of the depth)
+Readings == IF Wide THEN {0, 1, 7, 40, 95} ELSE {0, 1, 40, 95}
+Init == \E k \in {"hwmon", "file", "cmd"}, w \in 1..4, a0 \in (IF Wide THEN {0, 13, 50, 95} ELSE {0, 50}) : SInit(k, w, a0) /\ d = 0
 Next == /\ d < Depth /\ d' = d + 1
         /\ (\E x \in Readings : Poll(x)) \/ PollFail \/ PollNonFinite
 Spec == Init /\ [][Next]_mvars
